@@ -161,7 +161,9 @@ def _bloom_like(case, ctx, d, counting):
                ("filepath_Path", lambda: K(filepath=Path(ad.write(raw)), hash_function=hf)),
                ("hex_string", lambda: K(hex_string=hx, hash_function=hf)),
                ("frombytes_bytearray", lambda: K.frombytes(bytearray(raw), hf)),
-               ("frombytes_memoryview", lambda: K.frombytes(memoryview(raw), hf))]
+               ("frombytes_memoryview", lambda: K.frombytes(memoryview(raw), hf)),
+               # load-or-create idiom: sizing arguments given together with an existing file (documented order: the file wins)
+               ("filepath_with_params", lambda: K(o.estimated_elements + 7, 0.2, filepath=ad.write(raw), hash_function=hf))]
     if not counting:
         loaders.append(("BloomFilterOnDisk", lambda: BloomFilterOnDisk(ad.write(raw), hash_function=hf)))
     copies = []
@@ -229,7 +231,8 @@ def _expanding(case, ctx, d):
         loaders = [("frombytes", lambda: K.frombytes(raw, hf)), ("filepath", lambda: K(filepath=ad.write(raw), hash_function=hf)),
                    ("filepath_Path", lambda: K(filepath=Path(ad.write(raw)), hash_function=hf)),
                    ("frombytes_bytearray", lambda: K.frombytes(bytearray(raw), hf)),
-                   ("frombytes_memoryview", lambda: K.frombytes(memoryview(raw), hf))]
+                   ("frombytes_memoryview", lambda: K.frombytes(memoryview(raw), hf)),
+                   ("filepath_with_params", lambda: K(est_elements=o.estimated_elements + 5, false_positive_rate=0.2, filepath=ad.write(raw), hash_function=hf))]
     copies = []
     for name, mk in loaders:
         g = ctx.call(ad.nx, mk)
@@ -285,7 +288,8 @@ def _cms(case, ctx, d):
                ("filepath", lambda: K(filepath=ad.write(raw), hash_function=hf, **extra)),
                ("filepath_Path", lambda: K(filepath=Path(ad.write(raw)), hash_function=hf, **extra)),
                ("frombytes_bytearray", lambda: K.frombytes(bytearray(raw), hash_function=hf, **extra)),
-               ("frombytes_memoryview", lambda: K.frombytes(memoryview(raw), hash_function=hf, **extra))]
+               ("frombytes_memoryview", lambda: K.frombytes(memoryview(raw), hash_function=hf, **extra)),
+               ("filepath_with_params", lambda: K(width=d.w + 2, depth=d.d + 1, filepath=ad.write(raw), hash_function=hf, **extra))]
     copies = []
     for name, mk in loaders:
         g = ctx.call(ad.nx, mk)
